@@ -481,19 +481,20 @@ func (s *recordingSpan) End(options ...trace.SpanEndOption) {
 		s.addEvent(semconv.ExceptionEventName, opts...)
 	}
 
-	if s.executionTracerTaskEnd != nil {
-		s.mu.Unlock()
-		s.executionTracerTaskEnd()
-		s.mu.Lock()
-	}
-
 	// Setting endTime to non-zero marks the span as ended and not recording.
 	if config.Timestamp().IsZero() {
 		s.endTime = et
 	} else {
 		s.endTime = config.Timestamp()
 	}
+	taskEnd := s.executionTracerTaskEnd
 	s.mu.Unlock()
+
+	// End the runtime/trace task only after the span is marked as ended, so
+	// that a concurrent End cannot pass the recording check in between.
+	if taskEnd != nil {
+		taskEnd()
+	}
 
 	sps := s.tracer.provider.getSpanProcessors()
 	if len(sps) == 0 {
